@@ -487,8 +487,11 @@ func (sp *Specs) loadSpecFile(path, pkg string) error {
 			kind, r2 := splitWord(rest)
 			ns, r3 := splitWord(r2)
 			n, err := strconv.Atoi(ns)
+			if ns == "*" {
+				n, err = 0, nil // every instruction of that kind
+			}
 			if err != nil {
-				return fail(l, "at: ordinal expected")
+				return fail(l, "at: ordinal or * expected")
 			}
 			aw, r4 := splitWord(r3)
 			if aw != "assert" && aw != "assert*" {
